@@ -11,6 +11,7 @@ export GOFLAGS=-mod=mod GOPROXY=off GOSUMDB=off GOTOOLCHAIN=local; unset GOWORK
 SCR=$(mktemp -d /tmp/regr.XXXXXX)
 trap 'rm -rf "$SCR"' EXIT
 if [ -n "$(git -C /repo status --porcelain)" ]; then echo "/repo is not clean"; exit 2; fi
+MERGE=0; [ $# -gt 0 ] && MERGE=1   # named ids: merge into the existing matrix
 IDS="$@"; [ -z "$IDS" ] && IDS=$(ls seeded | grep -E '^C[0-9]+-[0-9]+$' | sort)
 PROPS=$(seq -f "C%02g" 1 20)
 echo "{" > "$SCR/matrix.json"; first=1
@@ -39,4 +40,4 @@ for id in $IDS; do
   echo "$id own=$own caught_by=[${caught%,}]"
 done
 echo "}" >> "$SCR/matrix.json"
-python3 -c "import json,sys; d=json.load(open('$SCR/matrix.json')); json.dump(d,open('/verif/seeded/CATCH_MATRIX.json','w'),indent=1,sort_keys=True); print(len(d),'changes;', sum(1 for v in d.values() if v['own_check_fires']),'caught by their own property check')"
+python3 -c "import json,sys; d=json.load(open('$SCR/matrix.json')); import os; old=(json.load(open('/verif/seeded/CATCH_MATRIX.json')) if ('$MERGE'=='1' and os.path.exists('/verif/seeded/CATCH_MATRIX.json')) else {}); old.update(d); d=old; json.dump(d,open('/verif/seeded/CATCH_MATRIX.json','w'),indent=1,sort_keys=True); print(len(d),'changes;', sum(1 for v in d.values() if v['own_check_fires']),'caught by their own property check')"
